@@ -41,7 +41,7 @@ CHECKS = {
             'Trusted: naga computes the WGSL layout (offsets/sizes); rustc const-evaluates assertions and lays out repr(C) as specified; Engine A semantics. The suite pins the reachable rows by snapshots, so the added value is mainly the one-to-one/identity provenance.',
             'DESIGN.md section 3 C05'),
     'C08': ('type-closure exhaustiveness against the naga TypeInner schema + 8-row truth table of the extracted selection predicate + single-producer rule',
-            'Every Handle<Type> field of naga::TypeInner (from the pinned source) is followed unconditionally by the closure function, which inserts every visited handle and is seeded from all global variables; the extracted emission predicate is equivalent to (not A and B) or C on all 8 rows, its conditions on the entry points being truth tables over (A: some entry returns the type, B: some entry takes it) obtained by evaluating them on model entry points of all three stages; the set behind C is altered only by the closure's own inserts (closure-only); only TypeInner::Struct yields items; the assembled output has exactly one producer of user struct items, a plain pass over module.types (UniqueArena).',
+            'Every Handle<Type> field of naga::TypeInner (from the pinned source) is followed unconditionally by the closure function, which inserts every visited handle and is seeded from all global variables; the extracted emission predicate is equivalent to (not A and B) or C on all 8 rows, its conditions on the entry points being truth tables over (A: some entry returns the type, B: some entry takes it) obtained by evaluating them on model entry points of all three stages; the set behind C is altered only by the inserts of the closure itself (closure-only); only TypeInner::Struct yields items; the assembled output has exactly one producer of user struct items, a plain pass over module.types (UniqueArena).',
             'Trusted: naga stores each type once; Engine A semantics.',
             'DESIGN.md section 3 C08'),
     'C09': ('per-row instantiation of the extracted struct item over the full 64-row truth table + option non-interference over the output grammar',
@@ -69,7 +69,7 @@ CHECKS = {
             'Trusted: rustc MIR + Instance resolution; naga handles index their own module; recognised density idioms are the two listed (another equivalent form is reported as undecided).',
             'DESIGN.md section 3 C11'),
     'C17': ('MIR dominance/taint rules on the top-level function and the four diagnostic helpers (rustc_private driver)',
-            'Decided on every path: parse_str receives the caller\'s text unchanged; its success edge dominates all generation and validator calls; nothing panic-capable before it or on the error path; ParseError/ValidationError are built from the very error values; with validate=Some the validator\'s success edge dominates all generation calls and nothing runs before the gate; the validator\'s Ok value is dropped, options.validate is read only at the gate, the module is never mutably borrowed (so validation cannot change the output); the validator is created with ValidationFlags::all() and the capability set of the caller's options.validate; the options travel between crate functions unchanged; the emit_* helpers dispatch to naga\'s same-named renderer with the caller\'s source and contain no panic-capable callee.',
+            'Decided on every path: parse_str receives the caller\'s text unchanged; its success edge dominates all generation and validator calls; nothing panic-capable before it or on the error path; ParseError/ValidationError are built from the very error values; with validate=Some the validator\'s success edge dominates all generation calls and nothing runs before the gate; the validator\'s Ok value is dropped, options.validate is read only at the gate, the module is never mutably borrowed (so validation cannot change the output); the validator is created with ValidationFlags::all() and the capability set of the caller\'s options.validate; the options travel between crate functions unchanged; the emit_* helpers dispatch to naga\'s same-named renderer with the caller\'s source and contain no panic-capable callee.',
             'Trusted: naga front end / validator / diagnostic renderer do not panic (library behaviour, not analysed).',
             'DESIGN.md section 3 C17'),
     'C18': ('whole-crate effect discipline over resolved callees in MIR: hash-order iteration, ambient input, retained state, gated process spawn',
